@@ -625,7 +625,7 @@ func (g *gen) junkLine() string {
 func (g *gen) mutate(text []byte) []byte {
 	lines := strings.Split(strings.TrimSuffix(string(text), "\r\n"), "\r\n")
 	for n := g.r.Range(1, 4); n > 0; n-- {
-		switch g.r.Intn(11) {
+		switch g.r.Intn(12) {
 		case 0, 1: // insert a pool line
 			i := g.r.Intn(len(lines) + 1)
 			lines = append(lines[:i], append([]string{pick(g, linePool)}, lines[i:]...)...)
@@ -696,6 +696,28 @@ func (g *gen) mutate(text []byte) []byte {
 		case 8: // insert a junk line
 			i := g.r.Intn(len(lines) + 1)
 			lines = append(lines[:i], append([]string{g.junkLine()}, lines[i:]...)...)
+		case 11:
+			// non-ASCII bytes in a field of an existing line: invalid UTF-8 (Latin-1 / GBK names), letters whose
+			// upper- or lower-case form has another byte length (U+0250, U+017F, U+0130, U+212A): any code that
+			// maps the case of a line and keeps using byte offsets of the original is exposed here
+			i := g.r.Intn(len(lines))
+			l := lines[i]
+			if len(l) > 2 {
+				junk := ""
+				for k := g.r.Range(1, 6); k > 0; k-- {
+					junk += pick(g, []string{"\xe9", "\xc9\xe3", "\xff", "\x9d", "\u0250", "\u017f", "\u0130", "\u212a", "\u00df", "\xf0\x9f"})
+				}
+				pos := 2
+				if g.r.Bool() {
+					pos = 2 + g.r.Intn(len(l)-1)
+				}
+				l = l[:pos] + junk + l[pos:]
+				if g.r.Intn(3) == 0 {
+					// ... and the rest of the line cut short, so that offsets computed on a longer string fall outside
+					l = l[:pos+len(junk)+g.r.Intn(len(l)-pos-len(junk)+1)]
+				}
+				lines[i] = l
+			}
 		}
 	}
 	sep := "\r\n"
